@@ -22,6 +22,7 @@ type datalog struct {
 	curSeg        *segment
 	segments      [maxSegments]*segment
 	maxSequenceID uint64
+	dirtySegments []*segment // Segments written since the last sync.
 }
 
 func openDatalog(opts *Options) (*datalog, error) {
@@ -144,6 +145,12 @@ func (dl *datalog) swapSegment() error {
 
 func (dl *datalog) removeSegment(seg *segment) error {
 	dl.segments[seg.id] = nil
+	for i, dseg := range dl.dirtySegments {
+		if dseg == seg {
+			dl.dirtySegments = append(dl.dirtySegments[:i], dl.dirtySegments[i+1:]...)
+			break
+		}
+	}
 
 	if err := seg.Close(); err != nil {
 		return err
@@ -211,6 +218,9 @@ func (dl *datalog) writeRecord(data []byte, rt recordType) (uint16, uint32, erro
 	if err != nil {
 		return 0, 0, err
 	}
+	if n := len(dl.dirtySegments); n == 0 || dl.dirtySegments[n-1] != dl.curSeg {
+		dl.dirtySegments = append(dl.dirtySegments, dl.curSeg)
+	}
 	switch rt {
 	case recordTypePut:
 		dl.curSeg.meta.PutRecords++
@@ -225,7 +235,15 @@ func (dl *datalog) put(key []byte, value []byte) (uint16, uint32, error) {
 }
 
 func (dl *datalog) sync() error {
-	return dl.curSeg.Sync()
+	// Sync every segment written since the last sync, not only the current one:
+	// records may have been left in segments sealed by a rollover or by compaction.
+	for _, seg := range dl.dirtySegments {
+		if err := seg.Sync(); err != nil {
+			return err
+		}
+	}
+	dl.dirtySegments = dl.dirtySegments[:0]
+	return nil
 }
 
 func (dl *datalog) close() error {
